@@ -354,7 +354,7 @@ def _format_arg(arg):
     return formatted_arg
 
 
-def format_signature(func, *args, **kwargs):
+def format_signature(func, /, *args, **kwargs):
     # XXX: Should this use inspect.formatargvalues/formatargspec?
     module, name = get_func_name(func)
     module = [m for m in module if m]
